@@ -28,7 +28,7 @@ TRUSTED = [
 ]
 ASSUMPTIONS = ["integer-millisecond clock",
                "a querier is a source sockaddr (address AND port): the two behaviours of the unchanged tree that contradict this reading are reported as known findings "
-               "(C11-r2a: identical bytes from another source within 1 s are dropped; C11-r2b: a held truncated packet and a plain query from two ports of one address are merged)",
+               "(D35: identical bytes from another source within 1 s are dropped; D36: a held truncated packet and a plain query from two ports of one address are merged)",
                "`async_remove_answers` (unregistration while answers are queued) is not in the Reply model: after an unregistration inside a scenario, queue flushes are "
                "compared on the answers that were not withdrawn (additionals not at all); the oracle still demands the remaining answers within 1.2 s",
                "replies of any size: the datagrams of one `async_send` call are taken together at the logical level, judged one by one by the oracle and compared byte for "
